@@ -398,7 +398,7 @@ fn tab_faults(call: &TabCall, n_cols: usize, rng: &mut Rng) -> Vec<(String, TabC
 
 pub fn c05(ctx: &mut Ctx) {
     let scenario = "core.c05";
-    let n_inst: u64 = if ctx.is_quick() { 800 } else { 20_000 };
+    let n_inst: u64 = if ctx.is_quick() { 3_000 } else { 40_000 };
     for k in 0..n_inst {
         if !ctx.mine(k) {
             continue;
